@@ -26,6 +26,63 @@ def bytes_const(t):
     return None
 
 
+def identifier_from_u16(ctx):
+    """RFC 9591: identifiers are the integers 1..n as scalars.  Identifier::try_from(u16) is a double-and-add over the bits of
+    n below its leading one: sum = 1; for i in (0 .. 16 - lz(n) - 1).rev(): sum = 2*sum; if n & (1 << i) != 0 { sum += 1 }.
+    Decided: that exact structure (range over all remaining bits, most significant first, unconditional doubling,
+    conditional increment on the i-th bit of n, zero refused, result through the checked constructor)."""
+    P = ctx.prog
+    key = "<frost_core::identifier::Identifier<C> as core::convert::TryFrom<u16>>::try_from"
+    f = ctx.anchor(key)
+    if not f:
+        return
+    v = FnView.get(P, f)
+    refusal(ctx, f, "SEP", "zero-refused", [("n==0", cmp_fact("eq", arg(1), const(0), True))], {b for (b, k, _) in ret_writes(f) if k in ("ok", "call")})
+    names = {n: l for l, n in f.var_names().items()}
+    lr = loop_report(P, f)
+    good = len(lr) == 1 and "sum" in names
+    det = ""
+    if good:
+        lp = lr[0]
+        it = lp["iter_term"]
+        rng = it[1][2][0] if it and it[0] == "iter" and is_call(it[1], name="rev") else None
+        bits16 = lambda t: t == ("bin", "Mul", ("cast", "usize", "u32", t[2][3]) if t[0] == "bin" and t[2][0] == "cast" else None, ("const", "u32", 8)) and \
+            mentions(t, lambda s: is_call(s, name="to_be_bytes") and s[2][0] == ("arg", 1))
+        good = (rng is not None and rng[0] == "agg" and dict(rng[4]).get("start") == ("const", "u32", 0))
+        if good:
+            end = dict(rng[4])["end"]
+            good = (end[0] == "bin" and end[1] == "Sub" and end[3] == ("const", "u32", 1) and end[2][0] == "bin" and end[2][1] == "Sub"
+                    and is_call(end[2][3], name="leading_zeros") and end[2][3][2][0] == ("arg", 1) and bits16(end[2][2]))
+            det = fmt(end)[:160]
+        # updates: doubling on every iteration, increment only when bit i of n is set
+        item = lambda t: t[0] == "some" and is_call(t[1], name="next")
+        bit = lambda fa: ((("pass" if not fa[4] else "fail") if fa[0] == "cond" and fa[1] == "eq" and
+                           ((fa[3] == ("const", "u16", 0) and fa[2][0] == "bin" and fa[2][1] == "BitAnd" and fa[2][2] == ("arg", 1)
+                             and fa[2][3][0] == "bin" and fa[2][3][1] == "Shl" and fa[2][3][2] == ("const", "u16", 1) and item(fa[2][3][3]))) else None))
+        d = defs_by_arm(f, v, names["sum"], bit, stop=frozenset({lp["header"]}))
+        lv = lambda t: t[0] == "loopvar" and t[2] == names["sum"]
+        dbl = [t for t in d[None] if is_call(t, name="add") and lv(t[2][0]) and lv(t[2][1])]
+        inc = [t for t in d["pass"] if is_call(t, name="add") and ((lv(t[2][0]) and is_call(t[2][1], name="one")) or (lv(t[2][1]) and is_call(t[2][0], name="one")))]
+        init = [t for t in d[None] if is_call(t, name="one")]
+        good = good and len(dbl) == 1 and len(inc) == 1 and len(init) == 1 and not d["fail"] and len(d[None]) == 2 and len(d["pass"]) == 1
+        # whenever bit i is set the increment is executed (no further condition on the way)
+        pass_targets = [e[1] for (e, fa) in v.facts if bit(fa) == "pass"]
+        acc_blocks = set(lp["acc"].get(names["sum"], set()))
+        dbl_blocks = {dd[1] for dd in f.defs().get(names["sum"], []) if dd[0] in ("assign", "call") and dd[1] in lp["body"]}
+        # blocks that perform the increment = sum-writes reachable only from the bit-set edge
+        fail_reach = set().union(*[f.reach(e[1], stop=frozenset({lp["header"]})) for (e, fa) in v.facts if bit(fa) == "fail"]) if pass_targets else set()
+        inc_blocks = {b for b in dbl_blocks if b not in fail_reach}
+        _, back = body_reach(f, lp, pass_targets, removed_blocks=inc_blocks)
+        good = good and bool(pass_targets) and bool(inc_blocks) and not back
+        tails = [v.cx.call(t, (f.key, b)) for (b, k, t) in ret_writes(f) if k == "call"]
+        good = good and len(tails) == 1 and is_call(tails[0], name="new") and tails[0][2][0][0] == "phi" and tails[0][2][0][1][1] == names["sum"]
+    ctx.check(good, "AGREE", key, "double-and-add-over-all-bits-of-n",
+              "Identifier::try_from(u16) is not the double-and-add over every bit of n below its leading one (most "
+              "significant first): identifiers would not be the RFC's integers as scalars for some n (%s)" % det, f.loc)
+    inv = {k: n for k, n in adaptor_inventory(f).items() if k not in LOOKUPS}
+    ctx.check(inv == {"rev": 1}, "RED", key, "adaptors", "adaptors %s, reviewed {rev: 1}" % inv, f.loc)
+
+
 def run(ctx):
     ctx.decided = ("the composition and order of every hash input and encoding against a table transcribed from RFC 9591 "
                    "§4-§6 and BIP-340: challenge = ser(R)||ser(vk)||msg; binding-factor preimage = "
@@ -115,6 +172,7 @@ def run(ctx):
         ctx.check(good, "RED", f.key, "full-width-big-endian-comparison",
                   "identifier order must compare the complete little-endian encodings of both operands from the most "
                   "significant byte (rev on both sides, nothing skipped): %s" % fmt(t)[:200], f.loc)
+    identifier_from_u16(ctx)
     # 5. signature encodings
     f = ctx.anchor(CORE + "signature::Signature::<C>::default_serialize")
     if f:
